@@ -6,6 +6,7 @@ UNITS = {
     'quorum': {'template': 'units/quorum/unit.rs', 'serves': ['C03', 'C06', 'C09'], 'min_verified': 30},
     'finality': {'template': 'units/finality/unit.rs', 'serves': ['C08'], 'min_verified': 30},
     'merkle': {'template': 'units/merkle/unit.rs', 'serves': ['C15'], 'min_verified': 45},
+    'validated': {'template': 'units/validated/unit.rs', 'serves': ['C09'], 'min_verified': 75},
     'slot_state': {'template': 'units/slot_state/unit.rs', 'serves': ['C03', 'C04', 'C06'], 'min_verified': 88},
 }
 
@@ -13,7 +14,19 @@ UNITS = {
 PROPS = {
 }
 
+_CERT_T = 'src/consensus/cert.rs %s::check_threshold (iterator chain) == quorum(sum of stakes of epoch validators marked in either half), any declared stake, any bitmask length; is_signer stubbed by a bit table'
+_CERT_B = 'validators <= 2, bitmask length <= 3, stakes <= 2^20 (unwind 5)'
+_CERT = [
+    {'name': 'kani_skip_cert_threshold', 'kind': 'bounded', 'bound': _CERT_B, 'timeout': 400, 'target': _CERT_T % 'SkipCert'},
+    {'name': 'kani_notar_fallback_cert_threshold', 'kind': 'bounded', 'bound': _CERT_B, 'timeout': 400, 'target': _CERT_T % 'NotarFallbackCert'},
+    {'name': 'kani_notar_cert_threshold', 'kind': 'bounded', 'bound': _CERT_B, 'timeout': 400, 'target': _CERT_T % 'NotarCert'},
+    {'name': 'kani_fast_final_cert_threshold', 'kind': 'bounded', 'bound': _CERT_B, 'timeout': 400, 'target': _CERT_T % 'FastFinalCert'},
+    {'name': 'kani_final_cert_threshold', 'kind': 'bounded', 'bound': _CERT_B, 'timeout': 400, 'target': _CERT_T % 'FinalCert'},
+]
+
 KANI = {
+    'C09': _CERT,
+    'C03': _CERT[:2],
     'C15': [
         {'name': 'kani_merkle_overlong_proof_rejected', 'kind': 'complete', 'timeout': 300,
          'target': 'src/crypto/merkle.rs check_hash_proof / check_hash_proof_last (proof of 33 elements, any index / leaf / root; hash_all stubbed)'},
